@@ -50,6 +50,120 @@ theorem C12_codec_table (c : Nat) : formatOf c = (primCodec c).map fmt := format
 /-- the positional big-endian numerals of the specification are the ones the Go code's `binary.BigEndian` writes -/
 theorem C12_big_endian (k n : Nat) : be k n = beBytes k n := be_eq_beBytes k n
 
+/-! ## v2: `[short bytes]` elements cannot be longer than 65535 bytes -/
+
+/-- v2 (`Uses4BytesCollectionLength() == false`): a list / set holding an element, or a map holding a key or a value,
+    whose own encoding `b` is longer than 65535 bytes is never encoded (`collectionElementTooLarge`) — the `[short]`
+    length is not silently truncated. No hypothesis on the types, the other elements or their position. -/
+theorem C12_v2_long_element_refused (version : Nat) (h2 : fourByte version = false) (b : Bytes)
+    (hlong : 65535 < b.length) :
+    (∀ (e : DataType) (xs : List (Option CqlVal)) (o : Option CqlVal) (r : Option Bytes), o ∈ xs →
+      encode version e o = .ok (some b) →
+      encode version (.list e) (some (.list xs)) ≠ .ok r ∧ encode version (.set e) (some (.list xs)) ≠ .ok r) ∧
+    (∀ (k v : DataType) (es : List (Option CqlVal × Option CqlVal)) (p : Option CqlVal × Option CqlVal)
+      (r : Option Bytes), p ∈ es → (encode version k p.1 = .ok (some b) ∨ encode version v p.2 = .ok (some b)) →
+      encode version (.map k v) (some (.map es)) ≠ .ok r) :=
+  ⟨fun e xs o r ho henc => encode_list_long_v2 version e h2 xs o ho b henc hlong r,
+   fun k v es p r hp henc => encode_map_long_v2 version k v h2 es p hp b hlong henc r⟩
+
+/-- the exact outcome at the element: the error, raised after the nil check and before anything is written -/
+theorem C12_v2_long_element_error (version : Nat) (h2 : fourByte version = false)
+    (enc : Option CqlVal → Res (Option Bytes)) (o : Option CqlVal) (b : Bytes) (henc : enc o = .ok (some b))
+    (hlong : 65535 < b.length) : writeElem version enc o = .err "collection element too large" :=
+  writeElem_long_v2 version enc h2 o b henc hlong
+
+/-- 65535 bytes is still fine and 65536 is not: the bound of `HasType` (`ElemOk`: `< 65536`) is exactly the encoder's,
+    so `C12_encode_conforms` loses nothing to the new check -/
+theorem C12_v2_element_bound_tight (version : Nat) (h2 : fourByte version = false) (y : CqlVal) (e : DataType)
+    (hy : HasType version e y) :
+    ElemOk version (HasType version e) (serialize version e) (some y) ↔ ¬ 65535 < (serialize version e y).length := by
+  rw [ElemOk, h2, if_neg (by decide)]
+  exact ⟨fun h => by omega, fun h => ⟨hy, by omega⟩⟩
+
+/-! ## §6: a UDT value with fewer fields than its type -/
+
+/-- native_protocol_v5.spec §6: "A UDT value will generally have one value for each field of the type it represents,
+    but it is allowed to have less values than the type has fields". For a well-typed UDT value whose LAST `k` fields
+    are null (`present ++ replicate k none`; any `k`, `k = 0` included), `Decode` of the specification's serialization
+    of only the leading fields `present` is that value, the missing fields being NULL. `present ≠ []`: with no field
+    at all the serialization is the empty byte string, which is NULL (`C12_udt_no_fields_is_null`). -/
+theorem C12_udt_fewer_fields (version : Nat) (ks nm : Bytes) (names : List Bytes) (ts : List DataType)
+    (present : List (Option CqlVal)) (k : Nat) (hs : Supported (.udt ks nm names ts) = true)
+    (ht : HasType version (.udt ks nm names ts) (.udt (present ++ List.replicate k none))) (hne : present ≠ []) :
+    decode version (.udt ks nm names ts) (some (serialize version (.udt ks nm names ts) (.udt present))) =
+      .ok (some (.udt (present ++ List.replicate k none))) :=
+  decode_udt_fewer version ks nm names ts present k hs ht hne
+
+/-- the short form is a prefix of the full one: the serialization of `present` followed by one NULL `[bytes]`
+    (`FF FF FF FF`) per missing field is the serialization of the whole value -/
+theorem C12_udt_fewer_fields_prefix (version : Nat) : ∀ (ts : List DataType) (present : List (Option CqlVal)) (k : Nat),
+    (present ++ List.replicate k none).length = ts.length →
+    serializeFields version ts (present ++ List.replicate k none) =
+      serializeFields version ts present ++ (List.replicate k (bytesOpt none)).flatten
+  | [], [], 0, _ => rfl
+  | [], [], _ + 1, h => by simp at h
+  | [], _ :: _, _, h => by simp at h
+  | _ :: _, [], 0, h => by simp at h
+  | t :: ts, [], k + 1, h => by
+    have ih := C12_udt_fewer_fields_prefix version ts [] k (by simpa using h)
+    rw [serializeFields_nil] at ih ⊢
+    show serializeFields version (t :: ts) (none :: ([] ++ List.replicate k none)) = _
+    rw [serializeFields, ih, List.replicate_succ, List.flatten_cons]
+    rfl
+  | t :: ts, f :: fs, k, h => by
+    have ih := C12_udt_fewer_fields_prefix version ts fs k (by simpa using h)
+    show serializeFields version (t :: ts) (f :: (fs ++ List.replicate k none)) = _
+    rw [serializeFields, ih, serializeFields, List.append_assoc]
+
+/-- no field present: the empty byte string, which every decoder reads as NULL (not as a UDT of nulls) -/
+theorem C12_udt_no_fields_is_null (version : Nat) (ks nm : Bytes) (names : List Bytes) (ts : List DataType)
+    (hs : Supported (.udt ks nm names ts) = true) :
+    serialize version (.udt ks nm names ts) (.udt []) = [] ∧
+    decode version (.udt ks nm names ts) (some (serialize version (.udt ks nm names ts) (.udt []))) = .ok none := by
+  have e : serialize version (.udt ks nm names ts) (.udt []) = [] := by rw [serialize, serializeFields_nil]
+  refine ⟨e, ?_⟩
+  rw [e, decode_empty version _ hs]
+  rfl
+
+/-- tuples are unchanged: `readTuple` requires every field (§5.21 has no such allowance) -/
+example : decode 4 (.tuple [.prim DataTypeCodeInt, .prim DataTypeCodeVarchar]) (some [0, 0, 0, 4, 0, 0, 0, 1]) =
+    .err "eof" := rfl
+
+-- `udt<int,varchar>`, bytes `00000004 00000001`: `<1,~>`
+set_option maxRecDepth 4096 in
+example : decode 4 (.udt [] [] [[0x61], [0x62]] [.prim DataTypeCodeInt, .prim DataTypeCodeVarchar])
+    (some [0, 0, 0, 4, 0, 0, 0, 1]) = .ok (some (.udt [some (.int 1), none])) := rfl
+-- … which is the specification's serialization of the one present field, and an instance of the theorem
+example : serialize 4 (.udt [] [] [[0x61], [0x62]] [.prim DataTypeCodeInt, .prim DataTypeCodeVarchar])
+    (.udt [some (.int 1)]) = [0, 0, 0, 4, 0, 0, 0, 1] := by decide
+example : decode 4 (.udt [] [] [[0x61], [0x62]] [.prim DataTypeCodeInt, .prim DataTypeCodeVarchar])
+    (some (serialize 4 (.udt [] [] [[0x61], [0x62]] [.prim DataTypeCodeInt, .prim DataTypeCodeVarchar])
+      (.udt [some (.int 1)]))) = .ok (some (.udt ([some (.int 1)] ++ List.replicate 1 none))) :=
+  C12_udt_fewer_fields 4 [] [] [[0x61], [0x62]] [.prim DataTypeCodeInt, .prim DataTypeCodeVarchar] [some (.int 1)] 1
+    (by decide)
+    (by
+      rw [HasType]
+      exact ⟨by decide, rfl, ⟨⟨.int 4, by decide, (by decide : fitsTwos 4 _ = true)⟩, by decide⟩, trivial, trivial⟩)
+    (by decide)
+-- trailing bytes after the last field of the type are still refused
+example : decode 4 (.udt [] [] [[0x61]] [.prim DataTypeCodeInt]) (some [0, 0, 0, 4, 0, 0, 0, 1, 0]) =
+    .err "bytes remaining" := rfl
+-- a field cut short is still an error (only a field that has not started may be missing)
+example : decode 4 (.udt [] [] [[0x61], [0x62]] [.prim DataTypeCodeInt, .prim DataTypeCodeVarchar])
+    (some [0, 0, 0, 4, 0, 0, 0, 1, 0, 0]) = .err "eof" := rfl
+
+-- v2: a 65536-byte blob element is refused, in a list, a set and as a map value
+example (r : Option Bytes) :
+    encode 2 (.list (.prim DataTypeCodeBlob)) (some (.list [some (.bytes (List.replicate 65536 0))])) ≠ .ok r ∧
+    encode 2 (.set (.prim DataTypeCodeBlob)) (some (.list [some (.bytes (List.replicate 65536 0))])) ≠ .ok r :=
+  (C12_v2_long_element_refused 2 (by decide) (List.replicate 65536 0) (by rw [List.length_replicate]; decide)).1
+    _ _ _ r (List.mem_singleton.mpr rfl) rfl
+example (r : Option Bytes) :
+    encode 2 (.map (.prim DataTypeCodeInt) (.prim DataTypeCodeBlob))
+      (some (.map [(some (.int 1), some (.bytes (List.replicate 65536 0)))])) ≠ .ok r :=
+  (C12_v2_long_element_refused 2 (by decide) (List.replicate 65536 0) (by rw [List.length_replicate]; decide)).2
+    _ _ _ _ r (List.mem_singleton.mpr rfl) (Or.inr rfl)
+
 /-! ## non-vacuity: concrete serializations, computed from the SPEC side only -/
 
 example : serialize 4 (.prim DataTypeCodeVarint) (.int (-129)) = [0xFF, 0x7F] := by decide
